@@ -53,6 +53,7 @@ type mEntry struct {
 	token    string // learned forwarder token (hex), "" unknown
 	fresh    bool   // no Interest of this entry has been forwarded / recorded before (first Interest)
 	maybe    bool   // implementation may already have dropped this entry (reaped inside a guard band)
+	tokenStale bool // the learned token may belong to an entry instance the forwarder has already dropped
 }
 
 type fwModel struct {
@@ -592,6 +593,7 @@ func (fr *fwRun) modelReap(v0, v1 time.Time) {
 			delete(m.entries, k)
 		} else if any {
 			e.maybe = true
+			e.tokenStale = true
 		}
 	}
 }
@@ -698,9 +700,22 @@ func (fr *fwRun) stepInterest(st *fwStep) {
 					}
 					break
 				}
-				// uncertain whether that record is still pending: either outcome, but then we lose track
+				// uncertain whether that record is still pending: either outcome is accepted; if the
+				// forwarder did nothing we cannot tell whether it recorded this Interest
 				if len(sends) == 0 {
 					fr.c.Distinct("I|dontcare|duplicate-maybe")
+					life := 4000 * time.Millisecond
+					if st.LifeMs != nil {
+						life = time.Duration(*st.LifeMs) * time.Millisecond
+					}
+					if old, ok := e.in[st.Face]; ok {
+						old.tokens = append(old.tokens, st.token)
+						if t1.Add(life).After(old.expHi) {
+							old.expHi = t1.Add(life)
+						}
+					} else {
+						e.in[st.Face] = &mIn{optional: true, tokens: [][]byte{st.token}, nonce: nonce, expLo: t0, expHi: t1.Add(life), createdStep: len(fr.hist)}
+					}
 					return
 				}
 			}
@@ -723,6 +738,7 @@ func (fr *fwRun) stepInterest(st *fwStep) {
 	} else if !bytes.Equal(ir.tokens[0], st.token) {
 		ir.tokens = append(ir.tokens, st.token) // which token a re-expressed Interest's face "supplied" is left open
 	}
+	ir.optional = false // the forwarder accepted this Interest: the face is recorded now
 	// certainly pending until the latest Interest's lifetime ends; possibly pending until the
 	// longest lifetime among the Interests this face expressed ends (which one governs is left open)
 	ir.nonce, ir.expLo = nonce, t0.Add(life)
@@ -836,6 +852,7 @@ func (fr *fwRun) stepInterest(st *fwStep) {
 				return
 			}
 			tk := h.HexFull(s.Token)
+			e.tokenStale = false
 			if e.token != tk {
 				if e.token != "" {
 					delete(m.byToken, e.token)
@@ -1017,7 +1034,7 @@ func (fr *fwRun) stepData(st *fwStep) {
 		for f, ir := range e.in {
 			nIn++
 			G := m.faces[f]
-			live := !e.maybe && ir.expLo.After(u1.Add(fwGuard))
+			live := !e.maybe && !ir.optional && !(branch == "token" && e.tokenStale) && ir.expLo.After(u1.Add(fwGuard))
 			switch {
 			case G == nil:
 				continue
